@@ -894,8 +894,11 @@ def Run(tier):
     print('NOTE property=%s listed finding %s was not reproduced on this tree'
           % (PROP, fid), flush=True)
   predicted = bool(asbuilt and asbuilt['violated'])
-  explained_devs = [u for u in uniq
-                    if u['signature']['explained_by_sticky_parser_flag']]
+  explained_devs = [
+      u for u in uniq
+      if u['signature']['explained_by_sticky_parser_flag'] and
+      u['signature']['equals_incanted_variant'] and
+      not u['signature']['same_lines_modulo_order_and_numbering']]
   if predicted and not explained_devs:
     print('MODEL-DRIFT property=%s the implementation-shaped model (sticky '
           'parser flag) predicts a deviation after an incantation program; '
